@@ -156,7 +156,7 @@ def plan(tier, seed):
     n_sys = len(variants) * len(G.MODES) * len(rots)
     spec = _spec_docs()
     pairs = (G.pair_histories(tier) + G.nest_histories(tier) + G.cross_histories(tier) + G.toc_histories(tier)
-             + G.spec_pair_histories(tier, seed, spec) + G.atom_pair_histories(tier) + G.mutate_histories(tier) + G.scheme_histories(tier))
+             + G.spec_pair_histories(tier, seed, spec) + G.atom_pair_histories(tier) + G.mutate_histories(tier) + G.scheme_histories(tier) + G.samekey_histories(tier))
     if tier == 'thorough':
         n_rand, n_ff = int(os.environ.get('VERIF_C11_RUNS', 250000)), int(os.environ.get('VERIF_C11_FF_RUNS', 40000))
     else:
